@@ -15,8 +15,8 @@ class ConjGradNetConfig(ModelConfig):
     no_parameter_sharing: bool = True
     cg_tol: float = 1e-7
     cg_iters: int = 10
-    cg_param_update_type: str = CGUpdateType.FR
-    denoiser_architecture: str = ModelName.RESNET
+    cg_param_update_type: str = CGUpdateType.FR.value
+    denoiser_architecture: str = ModelName.RESNET.value
     resnet_hidden_channels: int = 128
     resnet_num_blocks: int = 15
     resenet_batchnorm: bool = True
@@ -29,5 +29,5 @@ class ConjGradNetConfig(ModelConfig):
     didn_num_convs_recon: Optional[int] = 9
     conv_hidden_channels: Optional[int] = 64
     conv_n_convs: Optional[int] = 15
-    conv_activation: Optional[str] = ActivationType.RELU
+    conv_activation: Optional[str] = ActivationType.RELU.value
     conv_batchnorm: Optional[bool] = False
